@@ -965,7 +965,7 @@ def run(prop, tier, seed, replay, keep):
     violations, known_hits, drift = [], {}, 0
     cov = {"configs": [], "mutations": [], "states": 0, "transitions": 0, "traces_validated_against_impl": 0, "samples": [],
            "evaluations": 0, "distinct_nontrivial": 0, "exhaustive": True}
-    ntr = 1500 if quick else 8000
+    ntr = 1500 if quick else 12000
     maxlen = 12
     tmo = 400 if quick else 1700
     try:
@@ -986,7 +986,7 @@ def run(prop, tier, seed, replay, keep):
             jobs.insert(2, ("asis/simulate-L8", "MC_AyContainer",
                             cfg_container(set(ON), invariants=[], emit=True, idx="IdxFull", ren="RenEdge", keys=["a", "b", "c", "_x"],
                                           newkeys=["a", "z"], kinds=["S", "L", "D"], ops="AllOps", starts=[1, 3, 5, 6], tgt="both", maxlen=8,
-                                          upd="UpdFull", sim=True), 6, "num=1000", 10))
+                                          upd="UpdFull", sim=True), 6, "num=1500", 10))
         for sw, invs, kw in MUTATIONS:
             jobs.append(("mutation/" + sw, "MC_AyContainer",
                          cfg_container({sw}, invariants=PROP_INVS[:-1] + ["Inv_PopitemWorks"], emit=False, **kw), 2, None, None))
